@@ -34,7 +34,7 @@ struct Fixture {
         tpSpring = Force::TwoPointLinearSpring(forces, matter.Ground(), Vec3(0.5, 1, 0), b2, Vec3(0.1, 0, 0), 30, 0.8);
         cspeed = Constraint::ConstantSpeed(b3, MobilizerUIndex(0), 0.4);
         if (variant == 1) forces.setNumberOfThreads(1);
-        if (variant == 2) { rod = Constraint::Rod(b1, Vec3(0.3, 0, 0), b3, Vec3(0, 0.2, 0), 1.1); rod.setDisabledByDefault(true); }
+        if (variant == 2) { rod = Constraint::Rod(b1, Vec3(0.3, 0, 0), b3, Vec3(0, 0.2, 0), 1.1); }   // enabled by default: [realize ; set u] reaches its lazy caches at depth 2
         sys.realizeTopology();
         base = sys.getDefaultState();
         sys.realizeModel(base);     // modelling choices are not part of the histories; all states start here
@@ -223,6 +223,14 @@ static Outcome runHistoryOnce(verif::Run& run, Fixture& F, const std::vector<Op>
         return out;
     }
     out.obsHash = verif::fnv1a(os.data(), os.size() * sizeof(double));
+    // every variable value of the alphabet is finite, so every result must be finite too: a NaN/Inf can only come
+    // from cache content that some earlier operation left behind (or failed to refresh)
+    for (size_t i = 0; i < os.size(); ++i) if (!std::isfinite(os[i])) {
+        std::vector<std::string> labels; { State t = F.base; observe(F, t, &labels); }
+        out.ok = false; out.key = "non-finite-result/" + lastSetter;
+        out.what = "result component " + (i < labels.size() ? labels[i] : std::string("?")) + " is " + verif::fmtd(os[i]) + " although all state variables are finite";
+        return out;
+    }
     int w1 = 0, w2 = 0;
     bool sf = sameBits(os, of, &w1), sc = sameBits(os, oc, &w2), cf = sameBits(oc, of);
     if (sf && sc) return out;
